@@ -58,6 +58,15 @@ func flatSorted(m map[string]string) []string {
 	return r
 }
 
+func sortedKeys(m map[string]string) []string {
+	ks := make([]string, 0, len(m))
+	for k := range m {
+		ks = append(ks, k)
+	}
+	sort.Strings(ks)
+	return ks
+}
+
 func hexJoin(xs []string) string {
 	h := make([]string, len(xs))
 	for i, x := range xs {
@@ -143,9 +152,11 @@ func serSource(src *lql.Source, tagsText string, usesFn *bool) string {
 // ---------------------------------------------------------------------------------------------
 // generators
 
-var tagKeys = []string{"a", "b", "name", "ip", "k1", "A"}
-var tagVals = []string{"1", "2", "app1", "app2", "x", "", "abc", "ABC", "a/b", "10.0.0.1", "Z", "a b", "é", "x\"y", " c ", "a=b", "a,b"}
-var safeVals = []string{"1", "2", "app1", "app2", "x", "", "abc", "ABC", "a/b", "10.0.0.1", "Z", "a b", "a=b", "a,b", "x\"y\"z"}
+// pools contain blank twins (a value / name with an inner blank and the same text without it): "app 1"/"app1", "a bc"/"abc",
+// "a b"/"ab", "k 1"/"k1" — different sets that must never share a partition
+var tagKeys = []string{"a", "b", "name", "ip", "k1", "A", "k 1"}
+var tagVals = []string{"1", "2", "app1", "app2", "x", "", "abc", "ABC", "a/b", "10.0.0.1", "Z", "a b", "ab", "app 1", "a bc", "é", "x\"y", " c ", "a=b", "a,b"}
+var safeVals = []string{"1", "2", "app1", "app2", "x", "", "abc", "ABC", "a/b", "10.0.0.1", "Z", "a b", "ab", "app 1", "a bc", "a=b", "a,b", "x\"y\"z"}
 
 func genSet(r *vh.Rng, vals []string) map[string]string {
 	m := map[string]string{}
@@ -157,7 +168,8 @@ func genSet(r *vh.Rng, vals []string) map[string]string {
 }
 
 func spellValue(r *vh.Rng, v string) string {
-	raw := v != "" && !strings.ContainsAny(v, "=,\"`{} ") && isASCII(v)
+	// raw spelling: also for values with inner blanks (kvstring only trims the ends)
+	raw := v != "" && !strings.ContainsAny(v, "=,\"`{}") && isASCII(v) && v[0] != ' ' && v[len(v)-1] != ' '
 	switch r.Intn(5) {
 	case 0:
 		if raw {
@@ -230,11 +242,12 @@ func genExpr(r *vh.Rng, depth int) string {
 		var ands []string
 		for j := 0; j < k; j++ {
 			x := genCond(r)
-			if depth > 0 && r.Chance(1, 4) {
+			group := depth > 0 && r.Chance(1, 4)
+			if group {
 				x = "(" + genExpr(r, depth-1) + ")"
 			}
-			if r.Chance(1, 4) {
-				x = "not " + x
+			if r.Chance(1, 4) || (group && r.Chance(1, 3)) { // NOT before conditions and before groups, at every depth
+				x = []string{"not ", "NOT "}[r.Intn(2)] + x
 			}
 			ands = append(ands, x)
 		}
@@ -480,18 +493,39 @@ func genIdentCase(rng *vh.Rng) identCase {
 		}
 		m := genSet(rng, vals)
 		sets = append(sets, m)
-		if rng.Chance(1, 3) {
+		if rng.Chance(1, 2) {
 			// a near neighbour: one pair more, one value changed, or a superset
 			n := map[string]string{}
 			for k, v := range sets[rng.Intn(len(sets))] {
 				n[k] = v
 			}
-			if rng.Bool() {
+			switch rng.Intn(4) {
+			case 0:
 				n[rng.PickS(tagKeys)] = rng.PickS(vals)
-			} else {
-				for k := range n {
+			case 1:
+				for _, k := range sortedKeys(n) {
 					n[k] = n[k] + "x"
 					break
+				}
+			default:
+				// blank twin: the same set with an inner blank inserted into (or removed from) one value or name
+				ks := sortedKeys(n)
+				k := ks[rng.Intn(len(ks))]
+				v := n[k]
+				switch {
+				case strings.Contains(strings.TrimSpace(v), " "):
+					n[k] = strings.Replace(v, " ", "", -1)
+				case len(v) >= 2 && isASCII(v) && !strings.ContainsAny(v, "=,\"`{} "):
+					p := 1 + rng.Intn(len(v)-1)
+					n[k] = v[:p] + " " + v[p:]
+				case strings.Contains(k, " "):
+					delete(n, k)
+					n[strings.Replace(k, " ", "", -1)] = v
+				case len(k) >= 2:
+					delete(n, k)
+					n[k[:1]+" "+k[1:]] = v
+				default:
+					n[k] = v + "x"
 				}
 			}
 			sets = append(sets, n)
@@ -528,7 +562,7 @@ func genIdentCase(rng *vh.Rng) identCase {
 }
 
 func runIdentCase(c identCase, sec *vh.Section) {
-	srv, err := lrsrv.Start(lrsrv.NewDir(), lrsrv.Opts{NoRPC: true})
+	srv, err := startSrv(lrsrv.NewDir(), lrsrv.Opts{NoRPC: true})
 	if err != nil {
 		res.Note("identity: %v", err)
 		return
@@ -651,6 +685,17 @@ func sectionIdentity(rng *vh.Rng) {
 	res.Done(sec)
 }
 
+// startSrv: lrsrv probes a free port and releases it before the server binds; another process can take it meanwhile
+func startSrv(dir string, o lrsrv.Opts) (srv *lrsrv.Srv, err error) {
+	for try := 0; try < 10; try++ {
+		srv, err = lrsrv.Start(dir, o)
+		if err == nil || !strings.Contains(err.Error(), "address already in use") {
+			return
+		}
+	}
+	return
+}
+
 func parallel(n, workers int, f func(i int)) {
 	sem := make(chan struct{}, workers)
 	var wg sync.WaitGroup
@@ -685,14 +730,28 @@ func genSelCase(rng *vh.Rng) selCase {
 		seen[key] = true
 		c.Partitions = append(c.Partitions, m)
 	}
+	// proper supersets of an existing partition, so that a FROM {tags} equal to one partition's set must also select others
+	for k := rng.Intn(3); k > 0; k-- {
+		p := c.Partitions[rng.Intn(len(c.Partitions))]
+		sup := map[string]string{}
+		for _, key := range sortedKeys(p) {
+			sup[key] = p[key]
+		}
+		sup[[]string{"zone", "rack", "x1"}[rng.Intn(3)]] = rng.PickS(safeVals)
+		if key := fmt.Sprint(flatSorted(sup)); !seen[key] {
+			seen[key] = true
+			c.Partitions = append(c.Partitions, sup)
+			c.Sources = append(c.Sources, "{"+spellSet(rng, p)+"}") // exactly an existing partition's set
+		}
+	}
 	for k := 5 + rng.Intn(6); k > 0; k-- {
 		if rng.Chance(1, 3) {
 			// aimed at the population: a subset of an existing partition's pairs, as {tags} or as a conjunction
 			p := c.Partitions[rng.Intn(len(c.Partitions))]
 			sub := map[string]string{}
-			for k, v := range p {
+			for _, k := range sortedKeys(p) {
 				if rng.Chance(2, 3) {
-					sub[k] = v
+					sub[k] = p[k]
 				}
 			}
 			if len(sub) > 0 {
@@ -725,7 +784,7 @@ func idsOf(msgs []string) string {
 func runSelCase(c selCase, sec *vh.Section) {
 	dir := lrsrv.NewDir()
 	defer os.RemoveAll(dir)
-	srv, err := lrsrv.Start(dir, lrsrv.Opts{})
+	srv, err := startSrv(dir, lrsrv.Opts{})
 	if err != nil {
 		res.Note("selection: %v", err)
 		return
@@ -898,7 +957,7 @@ func sectionSelection(rng *vh.Rng) {
 func sectionRace(rng *vh.Rng) {
 	sec := res.Section("race", "stress",
 		"racing first writes: G=2..8 goroutines released together, each calling GetOrCreateJournal with its own spelling of one new Safe tag set (R rounds per server, a second distinct set racing in the same round); all callers of a set must get one id, different sets different ids, the index must hold one partition per set (model: tindex_map_inv — the whole look-up-or-create is one critical section). Half of the rounds go through Ingestor.Write from separate RPC clients. non-trivial = every round")
-	srv, err := lrsrv.Start(lrsrv.NewDir(), lrsrv.Opts{})
+	srv, err := startSrv(lrsrv.NewDir(), lrsrv.Opts{})
 	if err != nil {
 		res.Fatal(args.Out, "race: %v", err)
 	}
